@@ -188,6 +188,9 @@ def check_tail_invariant(ctx, F, tag, prefix="C05.R1"):
 def check_config(ctx, F, tag):
     check_tail_invariant(ctx, F, tag)
     check_grow_fill(ctx, F, tag)
+    # construction with a fill value / capacity / width: exactly the widths 1..=64 (shared with C09.R2)
+    import c09
+    c09.check_width_predicate(ctx, F, tag, "C05.R5", only=("int_vector::IntVector::new", "int_vector::IntVector::with_len", "int_vector::IntVector::with_capacity"))
     # ---------------- R2 mask before store
     check_write_int(ctx, F, tag, prefix="C05.R2")
     # push_bit ors the bit at split_offset(len) and new words are pushed as zero
